@@ -618,5 +618,12 @@ pub uninterp spec fn decay_ok(d: f64) -> bool;
 fn vx_decay_in_range(decay: f64) -> (r: bool)
   ensures r == decay_ok(decay)
 { decay > 0.0 && decay <= 1.0 }
+
+// Finding carrier (C17): upper_bound is documented for every sketch, but estimate + error must fit the counter type, which wf() does
+// not give (u8 sketch, total 200: error 181).  The precondition C17.cm_upper_bound_fits of upper_bound is therefore NOT established here.
+fn c17_cm_upper_bound_any_state<T: CountMinValue, I: Hash>(s: &CountMinSketch<T>, item: I) -> T
+  requires s.wf(), cm_law::<T>()
+{ s.upper_bound(item) }
+
 }
 fn main(){}
